@@ -353,7 +353,9 @@ let ch_c19 namesf footf firstf chain kind _ahead =
   let proper_prefix n = List.exists (fun m -> let mb = bytes_of_string m in List.length n < List.length mb && has_prefix n mb && n <> []) ["word/"; "xl/"; "ppt/"] in
   let k5f = List.exists proper_prefix names in
   if cv <> [] then propfail "C19" (Printf.sprintf "%s: names=[%s] result=%s name-plus-body-match=%b kind=%s" (string_of_bytes cv) names_s chain k5f kind);
-  if no_marker names && head_full <> "application/zip|.zip" then
+  (* (when the converse clause already reported this archive - an OOXML / JAR / APK verdict without its marker -
+     the same fact is not reported a second time under the weaker "stays plain zip" clause) *)
+  if cv = [] && no_marker names && head_full <> "application/zip|.zip" then
     propfail "C19" (Printf.sprintf "archive without any marker not reported as plain application/zip: names=[%s] result=%s" names_s chain);
   (* every OOXML / JAR / APK verdict has application/zip as its parent *)
   let special = List.mem (string_of_bytes head) ["application/jar"; "application/vnd.android.package-archive"] ||
